@@ -292,6 +292,49 @@ fn run(ctx: &mut Ctx) {
         stream_stratum(ctx, connective_core(), 5, 5, &mut idx, "asts_connective_core", 0, 0, 99);
         stream_stratum(ctx, binder_core(), 1, 5, &mut idx, "asts_binder_core", 0, 0, 5);
     }
+    // names with non-ASCII letters, apostrophes and one name a prefix of another
+    {
+        fn ren(a: &Ast) -> Ast {
+            let r = |n: &String| match n.as_str() {
+                "a" => "a\u{e9}".to_string(),
+                "b" => "a".to_string(),
+                "X" => "X\u{3b2}'".to_string(),
+                o => o.to_string(),
+            };
+            match a {
+                Ast::Var(v) => Ast::Var(r(v)),
+                Ast::Not(x) => Ast::Not(Box::new(ren(x))),
+                Ast::Q(e, vs, b) => Ast::Q(*e, vs.iter().map(r).collect(), Box::new(ren(b))),
+                Ast::Fp(x, g, b) => Ast::Fp(r(x), *g, Box::new(ren(b))),
+                Ast::CC(o, l, n) => Ast::CC(*o, l.iter().map(ren).collect(), n.clone()),
+                Ast::CV(o, l, rr) => Ast::CV(*o, l.iter().map(ren).collect(), rr.iter().map(ren).collect()),
+                Ast::Ite(c, t, e) => Ast::Ite(Box::new(ren(c)), Box::new(ren(t)), Box::new(ren(e))),
+                Ast::Bin(o, l, rr) => Ast::Bin(*o, Box::new(ren(l)), Box::new(ren(rr))),
+                o => o.clone(),
+            }
+        }
+        let mut g = Gen::new(enumerate::full_alpha());
+        for size in 1..=3 {
+            let mut todo = vec![];
+            g.stream(size, &mut |a| {
+                idx += 1;
+                if ctx.mine(idx) {
+                    todo.push(a);
+                }
+            });
+            for a in todo {
+                let ra = ren(&a);
+                let text = refl::pp(&ra, refl::MINIMAL);
+                if refl::parse(&text).as_ref() != Ok(&ra) {
+                    panic!("machinery: round trip failed for {text}");
+                }
+                if check_text(ctx, TAG, &ra, &text).is_some() {
+                    ctx.distinct(&text);
+                    ctx.count("asts_renamed", 1);
+                }
+            }
+        }
+    }
     for a in enumerate::depth2_family() {
         idx += 1;
         if ctx.mine(idx) {
